@@ -75,6 +75,12 @@ func Int(name string, lo, hi int) int {
 	}
 	return int(v)
 }
+// Choose is an enumerated choice in [lo,hi] (one path per value, no solver query).
+func Choose(name string, lo, hi int) int { return Int(name, lo, hi) }
+
+// Flip is an enumerated boolean choice.
+func Flip(name string) bool { return Bool(name) }
+
 func Byte(name string) byte     { v, _ := lookupU(name); return byte(v) }
 func Uint32(name string) uint32 { v, _ := lookupU(name); return uint32(v) }
 func Uint64(name string) uint64 { v, _ := lookupU(name); return v }
@@ -116,6 +122,8 @@ func Assert(c bool, label string) {
 	}
 }
 
+// NoNaNInputs: every Float64Bits input created from now on is assumed not to be NaN.
+func NoNaNInputs()                {}
 func Cover(label string)          {}
 func Tag(label string)            {}
 func Bound(name string, v int)    {}
